@@ -33,8 +33,12 @@ SIG_LO, SIG_HI = 0.3125, 3.0  # exactly representable in float32
 # --------------------------------------------------------------------------------------
 
 
-def trunc_class(N, k):
-    """input classes of one (state count, truncation) pair"""
+def trunc_class(N, k, sigma=None):
+    """input classes of one (state count, truncation[, sigma]) triple.  With sigma == 1 every
+    adjacent offset has the logit 1**d = 1, so an over-truncated kernel is symmetric after all:
+    that case is its own class 'asym-flat' when sigma is given."""
+    if sigma is not None and 2 * k > N and sigma == 1.0:
+        return "asym-flat"
     if k == 0:
         return "diag"  # only the state itself is adjacent
     if 2 * k > N:
@@ -100,9 +104,12 @@ class Ref:
         return path[:, None] + em
 
     def tol(self, expected):
-        """float32 library vs float64 oracle, sum of 2T+1 log terms of magnitude <= maxterm"""
+        """float32 library vs float64 oracle, sum of k = 2T+1 log terms of magnitude <= maxterm.
+        Ten times tighter than the framework's usual 2e-5*k*M + 2e-4*|x|: calibration on the
+        unchanged tree (sigma up to 3, N=5, T=3, |log posterior| up to 468) gave a largest error
+        of 1e-2 of THIS bound, i.e. still a >= 100x margin over float32 rounding."""
         k = 2 * self.T + 1
-        return 2e-5 * k * max(1.0, self.maxterm) + 2e-4 * np.abs(expected)
+        return 2e-6 * k * max(1.0, self.maxterm) + 2e-5 * np.abs(expected)
 
 
 # --------------------------------------------------------------------------------------
@@ -352,11 +359,11 @@ def quick_grid(ctx, m, n):
         own = [c for c in cfgs if c[0] == N]
         for T in (2, 3):
             for cls in ("diag", "far-sym", "full-sym", "asym"):
-                mem = [(c, T) for c in own if trunc_class(N, c[1]) == cls]
+                mem = [(c, T) for c in own if trunc_class(N, c[1], c[3]) == cls]
                 if mem:
                     pick(["t", N, cls, T], mem)
             for cls in ("diag", "far-sym", "full-sym", "asym"):
-                mem = [(c, T) for c in own if trunc_class(N, c[2]) == cls]
+                mem = [(c, T) for c in own if trunc_class(N, c[2], c[4]) == cls]
                 if mem:
                     pick(["o", N, cls, T], mem)
         pick(["one", N], [(c, 1) for c in own])
@@ -405,13 +412,13 @@ def classes_of(case):
     cl = [
         f"N={N}",
         f"T={case['T']}",
-        "trans:" + trunc_class(N, case["kt"]),
-        "obs:" + trunc_class(N, case["ko"]),
+        "trans:" + trunc_class(N, case["kt"], case["st"]),
+        "obs:" + trunc_class(N, case["ko"], case["so"]),
         "src:" + case["src"],
         "sigma:grid" if (case["st"] in SIGMAS and case["so"] in SIGMAS) else "sigma:float",
     ]
-    if trunc_class(N, case["kt"]) == "asym" and case["T"] >= 2:
-        cl.append("trans-asym&T>=2")
+    if trunc_class(N, case["kt"], case["st"]) == "asym" and case["T"] >= 2:
+        cl.append("trans-asym&T>=2")  # the class in which a transposed transition is visible
     return cl
 
 
